@@ -372,6 +372,8 @@ def _dereify_agenda(g: Graph, model: Model) -> _Dereification:
             except ModelError:
                 pass
             else:
+                if dereified[0] not in inst:
+                    continue  # the source of a triple must be a node
                 # migrate epidata
                 epidata: List[Epidatum] = []
                 if instance in alns:
